@@ -252,7 +252,7 @@ Proof.
 Qed.
 
 Theorem delete_restores_link st o n d r p t tr old :
-  (o < length (objs st))%nat ->
+  (o < length (objs st))%nat -> listenable st o n = true ->
   find_trait st o n = Some (Deleg d r false) ->
   walk 100 st o o d r n = Ok (p, t, tr) ->
   dict_get st o n = Some old ->
@@ -261,7 +261,7 @@ Theorem delete_restores_link st o n d r p t tr old :
   dict_get st' o n = None /\ has_node (o, n) (ltab st') = true /\
   snd (fst (del_attr st o n)) = Done.
 Proof.
-  intros Hlt Htr Hw Hl st'. subst st'. unfold del_attr. rewrite Htr, Hw, Hl. cbn [fst snd].
+  intros Hlt Hli Htr Hw Hl st'. subst st'. unfold del_attr. rewrite Htr, Hw, Hli, Hl. cbn [fst snd].
   split; [reflexivity|]. split; [|split; [|reflexivity]].
   - change (dict_get (ltab_add (dict_del st o n) (o, n)) o n) with (dict_get (dict_del st o n) o n).
     unfold dict_get, get_obj, dict_del. cbn [objs]. rewrite nth_update_same by exact Hlt. cbn.
